@@ -1,3 +1,5 @@
+import re
+
 from prophyc import model
 from prophyc.generators.base import GenerateError, GeneratorBase, TranslatorBase, check_cpp_names
 
@@ -22,6 +24,8 @@ def _indent(string_, spaces):
 
 
 def _to_literal(value):
+    """ `- 5` and `-(5)` are the literal -5 as well """
+    value = re.sub(r"\A\s*-\s*\(?\s*(0[xX][0-9a-fA-F]+|[0-9]+)\s*\)?\s*\Z", r"-\1", value)
     try:
         number = int(value, 0)
     except ValueError:
